@@ -71,6 +71,10 @@ func (f *fragger) boxes(q string, bs []d2ast.InterpolationBox) map[string]any {
 		f.fail("invalid-utf8")
 		return nil
 	}
+	if strings.HasSuffix(*b.StringRaw, "\\") {
+		f.fail("trailing-backslash") // re-reading the printed raw text would continue onto the next line
+		return nil
+	}
 	return map[string]any{"q": q, "r": *b.StringRaw, "v": *b.String}
 }
 
